@@ -1730,6 +1730,29 @@ package graphql
 //@   at call reportError: assert arg0 == context && len(arg2) == 1 && typeis(arg2[0], "*ast.Field") && as(arg2[0], "*ast.Field") == node
 //@   ensures result0 == visitor.ActionNoChange
 
+// KnownArgumentNames: an argument of a field (directive) whose definition is known is reported exactly when
+// the definition has no argument of that name; located at the argument.
+//@ func unknownArgMessage
+//@   trusted
+//@   assigns nothing
+//@ func unknownDirectiveArgMessage
+//@   trusted
+//@   assigns nothing
+//@ func KnownArgumentNamesRule$1
+//@   props C02 C18
+//@   nosafety
+//@   opt invoke.GetKind=pure
+//@   ensures !typeis(p.Node, "*ast.Argument") ==> calls("reportError") == 0
+//@   loop 1 over fieldDef.Args
+//@   loop 1 invariant fieldArgDef == nil && (forall j in 0..rangeindex+1: fieldDef.Args[j].PrivateName != node.Name.Value)
+//@   loop 2 over directive.Args
+//@   loop 2 invariant fieldArgDef == nil && (forall j in 0..rangeindex+1: directive.Args[j].PrivateName != node.Name.Value)
+//@   at call reportError#1: assert arg0 == context && fieldDef != nil && (forall j in 0..len(fieldDef.Args): fieldDef.Args[j].PrivateName != node.Name.Value) && len(arg2) == 1 && typeis(arg2[0], "*ast.Argument") && as(arg2[0], "*ast.Argument") == node
+//@   at call reportError#2: assert arg0 == context && directive != nil && (forall j in 0..len(directive.Args): directive.Args[j].PrivateName != node.Name.Value) && len(arg2) == 1 && typeis(arg2[0], "*ast.Argument") && as(arg2[0], "*ast.Argument") == node
+//@   at return: assert calls("GetKind") == 1 && lastresult("GetKind") == kinds.Field && fieldDef != nil && calls("reportError") == 0 ==> fieldArgDef != nil && fieldArgDef.PrivateName == node.Name.Value
+//@   at return: assert calls("GetKind") == 1 && lastresult("GetKind") == kinds.Directive && directive != nil && calls("reportError") == 0 ==> fieldArgDef != nil && fieldArgDef.PrivateName == node.Name.Value
+//@   ensures calls("reportError") <= 1 && result0 == visitor.ActionNoChange
+
 // VariablesAreInputTypes: a variable definition is reported exactly when its type is known and not an input
 // type; the error is located at the type reference.
 //@ func VariablesAreInputTypesRule$1
